@@ -32,6 +32,32 @@ def apciCodec : Codec APCI.Service :=
 /-- `parse <rawhex>` → rendered frame | `parse` | `unsupported`
 `reser <rawhex>` → `ok <hex>` (parse with the APCI model, serialise the decoded service again) | error class -/
 def handle : List String → String
+  | "build" :: code :: info :: p :: r :: s :: a :: c :: hop :: src :: g :: dst :: tcls :: seq :: cls :: rest =>
+    -- a link frame built from telegram parts; the payload is a service object given as `<Class> k=v …` (or `none`)
+    match code.toNat?, bytesOfHex? info, p.toNat?, hop.toNat?, src.toNat?, dst.toNat?, seq.toNat? with
+    | some code, some info, some p, some hop, some src, some dst, some seq =>
+      match TPCI.parseT tcls seq with
+      | none => "bad-op"
+      | some t =>
+        let payload? : Option (Option APCI.Service) :=
+          if cls == "none" then some none else
+          match APCI.table.findIdx? (·.name == cls), (rest.filter (· != "")).mapM APCI.parsePair with
+          | some i, some pairs =>
+            match APCI.table[i]? with
+            | none => none
+            | some row =>
+              match APCI.firstFit row.variants 0 pairs with
+              | none => some (some ⟨i, 0, []⟩)      -- no variant fits: the encoder refuses
+              | some (j, vals) => some (some ⟨i, j, vals⟩)
+          | _, _ => none
+        match payload? with
+        | none => "bad-op"
+        | some payload =>
+          let d : LData APCI.Service := ⟨⟨p, parseBool r, parseBool s, parseBool a, parseBool c, hop, 1, 0⟩, src, g == "g", dst, t, payload⟩
+          match Frame.toKnx apciCodec ⟨code, info, .ldata d⟩ with
+          | .ok bs => s!"ok {hexOfBytes bs}"
+          | .error e => e.render
+    | _, _, _, _, _, _, _ => "bad-op"
   | ["reser", h] =>
     match bytesOfHex? h with
     | some raw => match Frame.fromKnx apciCodec raw with
